@@ -33,7 +33,7 @@ func VerifC02_SwapSingle() {
 	verifExpect("accepted", "rejected", "deadline-passed")
 	e := newCsEnv(true)
 	one, zero := big.NewInt(1), big.NewInt(0)
-	w := verifPow2(64)
+	w := verifAmt(64)
 	pool := e.seedPool("btc", verifIntIn("S", one, w), verifIntIn("T", one, w), verifIntIn("L", one, w))
 	poolAddr := types.GetReservePoolAddr(pool.LptDenom)
 	inDenom, outDenom := csStd, "btc"
@@ -53,8 +53,8 @@ func VerifC02_SwapSingle() {
 	}
 	inAmt, outAmt := verifIntIn("in", one, w), verifIntIn("out", one, w)
 	for _, d := range []string{csStd, "btc"} {
-		e.bank.fund(e.sender, d, verifIntIn("balS_"+d, zero, verifPow2(66)))
-		e.bank.fund(e.other, d, verifIntIn("balO_"+d, zero, verifPow2(66)))
+		e.bank.fund(e.sender, d, verifIntIn("balS_"+d, zero, verifAmt(66)))
+		e.bank.fund(e.other, d, verifIntIn("balO_"+d, zero, verifAmt(66)))
 	}
 	now, deadline := verifInt64("now"), verifInt64("deadline")
 	verifAssume(now >= 0 && now < 1<<40 && deadline < 1<<40)
@@ -140,7 +140,7 @@ func VerifC02_SwapDoubleShapes() { csDoubleHop(true) }
 func csDoubleHop(shapes bool) {
 	verifExpect("accepted", "rejected")
 	one, zero := big.NewInt(1), big.NewInt(0)
-	w := verifPow2(40)
+	w := verifAmt(40)
 	var e *csEnv
 	var p1, p2 types.Pool
 	if shapes {
@@ -174,8 +174,8 @@ func csDoubleHop(shapes bool) {
 	}
 	inAmt, outAmt := verifIntIn("in", one, w), verifIntIn("out", one, w)
 	for _, d := range []string{csStd, "btc", "eth"} {
-		e.bank.fund(e.sender, d, verifIntIn("balS_"+d, zero, verifPow2(42)))
-		e.bank.fund(e.other, d, verifIntIn("balO_"+d, zero, verifPow2(42)))
+		e.bank.fund(e.sender, d, verifIntIn("balS_"+d, zero, verifAmt(42)))
+		e.bank.fund(e.other, d, verifIntIn("balO_"+d, zero, verifAmt(42)))
 	}
 	msg := &types.MsgSwapOrder{
 		Input:      types.Input{Address: e.sender.String(), Coin: sdk.Coin{Denom: "btc", Amount: inAmt}},
